@@ -553,7 +553,7 @@ func TestC07Stress(t *testing.T) {
 	rng := NewRng(r.Seed, "c07s")
 	reps, per := pick(3, 24), pick(250, 1200)
 	if raceEnabled {
-		reps, per = pick(2, 8), pick(80, 300)
+		reps, per = pick(1, 8), pick(80, 300)
 	}
 	shard, _ := shardInfo()
 	for rep := 0; rep < reps; rep++ {
